@@ -13,7 +13,8 @@ import codec
 import drive
 
 NUMS = {"zero": 0, "one": 1, "negzerof": -0.0, "onehalf": 0.5, "p53plus1": 2 ** 53 + 1, "fmax": 1.7976931348623157e308,
-        "negfmax": -1.7976931348623157e308, "int308": 10 ** 308, "denormal": 5e-324, "bigint": 10 ** 400,
+        "negfmax": -1.7976931348623157e308, "int308": 10 ** 308, "int1024m1": 2 ** 1024 - 1, "denormal": 5e-324,
+        "bigint": 10 ** 400,
         "negbigint": -10 ** 400}
 STRS = {"empty": "", "nul": "\0", "paren": "(", "bracket": "a[0", "smiley": ":-)", "backslash": "\\", "long": "ab" * 5000,
         "astral": "\U0001F600", "combining": "é", "surrogate": "\ud800", "newline": "a\nb", "percent_s": "%s {0} {x}",
@@ -126,7 +127,30 @@ def observe(st):
     return ob
 
 
-def collect(rep, tier):
+def _exact_expected(case):
+    """exact rational arithmetic for the table ExpectedAccept of Extreme.tla (machinery check)"""
+    from fractions import Fraction
+    if case["kind"] == "mult":
+        if case["arg"] == "m_tiny":
+            return None
+        return Fraction(NUMS[case["val"]]) % Fraction(MULTS[case["arg"]]) == 0
+    if case["kind"] == "num":
+        v = NUMS[case["val"]]
+        a = case["atom"]
+        if a == "type_number":
+            return True
+        if a == "type_integer":
+            return isinstance(v, int)
+        if a == "minimum":
+            return Fraction(v) >= 1
+        if a == "maximum_big":
+            return Fraction(v) <= 10 ** 400
+        if a == "const_big":
+            return isinstance(v, int) and v == 10 ** 400
+    return None
+
+
+def collect(rep, tier, pid="C10"):
     res = run_tlc("MC_Extreme", "SPECIFICATION Spec\nINVARIANT Inv\nCHECK_DEADLOCK FALSE\n", coverage=False, workers=4)
     if not res.ok or not res.lines:
         raise MachineryError("TLC failed on MC_Extreme:\n" + res.raw_tail[-2000:])
@@ -136,6 +160,39 @@ def collect(rep, tier):
     obs = drive.pmap(observe, states, chunksize=32)
     events, index = [], {}
     drift = 0
+    for st in states:        # the reference table itself is checked first
+        ex = _exact_expected(st["case"])
+        if (ex is not None and st["expected"] != [ex]) or (ex is None and len(st["expected"]) == 1):
+            raise MachineryError(f"Extreme.tla ExpectedAccept is wrong for {st['case']}: table {st['expected']}, exact {ex}")
+    if pid == "C01":
+        n = 0
+        for si, (st, ob) in enumerate(zip(states, obs)):
+            if len(st["expected"]) != 1 or ob["parse"] != "ok" or ob["call"] not in ("ok", "reject"):
+                continue
+            n += 1
+            eid = len(index) + 1
+            index[eid] = si
+            c = st["case"]
+            events.append((eid, '[id |-> %d, p |-> "C01", c |-> [kind |-> %s, atom |-> %s, arg |-> %s, val |-> %s], parse |-> "ok", call |-> %s, terminated |-> TRUE]'
+                           % (eid, codec.tla_str(c["kind"]), codec.tla_str(c["atom"]), codec.tla_str(c["arg"]),
+                              codec.tla_str(c["val"]), codec.tla_str(ob["call"]))))
+        adj = 0
+        if events:
+            data = ("---- MODULE TraceData ----\nEXTENDS Integers, Sequences, TLC\nEvents == <<\n"
+                    + ",\n".join(t for _, t in events) + "\n>>\n====\n")
+            r2 = run_tlc("Trace_Extreme", "SPECIFICATION Spec\nINVARIANT Inv\nPOSTCONDITION Consumed\nCHECK_DEADLOCK FALSE\n",
+                         extra_modules={"TraceData": data}, workers=1, coverage=False)
+            if not r2.ok:
+                raise MachineryError("Trace_Extreme failed:\n" + r2.raw_tail[-2000:])
+            adj = r2.distinct
+            for l in r2.lines:
+                st, ob = states[index[l["reject"]]], obs[index[l["reject"]]]
+                c = st["case"]
+                rep.violation(("C01", "extreme", c["atom"], c["arg"]),
+                              f"{json.dumps(atom_schema(c['atom'], c['arg']), default=repr)[:120]} on {c['val']} "
+                              f"(= {repr(NUMS[c['val']])[:40]}): statham says {ob['call']}, Draft 6 says "
+                              f"{'accept' if st['expected'] == [True] else 'reject'}", dict(state=st, observed=ob))
+        return dict(extreme_states=res.distinct, extreme_cases=n, extreme_tlc_states=adj)
     for si, (st, ob) in enumerate(zip(states, obs)):
         c = st["case"]
         real = ob["parse"] if ob["parse"] != "ok" else ob["call"]
@@ -150,7 +207,7 @@ def collect(rep, tier):
             drift += 1
         eid = len(index) + 1
         index[eid] = si
-        events.append((eid, '[id |-> %d, parse |-> %s, call |-> %s, terminated |-> %s]'
+        events.append((eid, '[id |-> %d, p |-> "C10", parse |-> %s, call |-> %s, terminated |-> %s]'
                        % (eid, codec.tla_str(ob["parse"]), codec.tla_str(ob["call"]),
                           "TRUE" if ob["terminated"] else "FALSE")))
     adj = 0
